@@ -200,13 +200,8 @@ def engine : Engine DState where
         | none => ({ d with mon := mon' }, { model := "disabled", violated := viol })
         | some s =>
           -- the harness names a detached cancel notification by its call (x<n>); the model by creation index
-          let fixW : Who → Who := fun w => match w with
-            | .cnotif n => .cnotif ((s.cnotifs.findIdx? (fun nf => nf.cancelFor == some n)).getD s.cnotifs.length)
-            | w => w
-          let l := match l with
-            | .n1 w => .n1 (fixW w) | .n2 w => .n2 (fixW w) | .w1 w => .w1 (fixW w) | .w2 w => .w2 (fixW w)
-            | .wret w o => .wret (fixW w) o
-            | l => l
+          -- (the monitors do not look at that subject: `evOf_relabel_fixCnotif` in Bridge.lean)
+          let l := l.relabel (fixCnotif s)
           match step s l with
           | none => ({ st := none, mon := mon' }, { model := "disabled", violated := viol })
           | some s' => ({ st := some s', mon := mon' }, { model := observe s', violated := viol <|> selfCheck s' })
